@@ -1224,4 +1224,73 @@ class SeedTask(object):
 
         x0 = x//meta_size[0] * meta_size[0]""", 'C04.c|C08.b'),
     M('M-C04c-pattern-buffer', 'mapproxy/grid.py', "                    j*self.grid.tile_size[0] + buffers[0],", "                    j*self.grid.tile_size[0] + buffers[2],", 'C04.c'),
+    # ---------------------------------------------------------------- C01
+    M('M-C01a-no-egress-switch', 'mapproxy/request/wms/__init__.py', """        params = WMSMapRequest.adapt_params_to_version(self)
+        params.switch_bbox()
+        if 'srs' in params:""", """        params = WMSMapRequest.adapt_params_to_version(self)
+        if 'srs' in params:""", 'C01.a'),
+    M('M-C01a-egress-switch-after-rename', 'mapproxy/request/wms/__init__.py', """        params = WMSMapRequest.adapt_params_to_version(self)
+        params.switch_bbox()
+        if 'srs' in params:
+            params['crs'] = params['srs']
+            del params['srs']
+        return params""", """        params = WMSMapRequest.adapt_params_to_version(self)
+        if 'srs' in params:
+            params['crs'] = params['srs']
+            del params['srs']
+        params.switch_bbox()
+        return params""", 'C01.a'),
+    M('M-C01a-ingress-switch-first', 'mapproxy/request/wms/__init__.py', """        del self.params['wmtver']
+        if 'crs' in self.params:
+            self.params['srs'] = self.params['crs']
+            del self.params['crs']
+        self.params.switch_bbox()""", """        del self.params['wmtver']
+        self.params.switch_bbox()
+        if 'crs' in self.params:
+            self.params['srs'] = self.params['crs']
+            del self.params['crs']""", 'C01.a'),
+    M('M-C01a-double-switch-fi', 'mapproxy/request/wms/__init__.py', """        WMS130MapRequest.adapt_to_111(self)
+        # only set x,y when present,""", """        WMS130MapRequest.adapt_to_111(self)
+        self.params.switch_bbox()
+        # only set x,y when present,""", 'C01.a'),
+    M('M-C01a-swap-indices', 'mapproxy/request/wms/__init__.py', "return bbox[1], bbox[0], bbox[3], bbox[2]", "return bbox[1], bbox[0], bbox[2], bbox[3]", 'C01.a'),
+    M('M-C01a-111-switches', 'mapproxy/request/wms/__init__.py', """    xml_exception_handler = exception.WMS111ExceptionHandler
+
+    def adapt_to_111(self):
+        del self.params['wmtver']
+
+
+def switch_bbox_epsg_axis_order""", """    xml_exception_handler = exception.WMS111ExceptionHandler
+
+    def adapt_to_111(self):
+        del self.params['wmtver']
+        self.params.switch_bbox()
+
+
+def switch_bbox_epsg_axis_order""", 'C01.a'),
+    E('E-C01a-statement-between', 'mapproxy/request/wms/__init__.py', """        params = WMSMapRequest.adapt_params_to_version(self)
+        params.switch_bbox()
+        if 'srs' in params:""", """        params = WMSMapRequest.adapt_params_to_version(self)
+        params.switch_bbox()
+        log.debug('adapting params to 1.3.0')
+        if 'srs' in params:""", 'unrelated statement between switch and rename'),
+    M('M-C01b-size-for-offset', 'mapproxy/layer.py', "result = SubImageSource(resp, size=query.size, offset=offset, image_opts=self.image_opts,",
+      "result = SubImageSource(resp, size=query.size, offset=size, image_opts=self.image_opts,", 'C01.b'),
+    M('M-C01b-subquery-full-bbox', 'mapproxy/source/wms.py', "src_query = MapQuery(bbox, size, query.srs, format, dimensions=query.dimensions)\n        resp = self.client.retrieve(src_query, format)\n        return SubImageSource",
+      "src_query = MapQuery(query.bbox, size, query.srs, format, dimensions=query.dimensions)\n        resp = self.client.retrieve(src_query, format)\n        return SubImageSource", 'C01.b|C17.d'),
+    E('E-C01b-renamed-locals', 'mapproxy/source/wms.py', """        size, offset, bbox = bbox_position_in_image(query.bbox, query.size, self.extent.bbox_for(query.srs))
+        if size[0] == 0 or size[1] == 0:
+            raise BlankImage()
+        src_query = MapQuery(bbox, size, query.srs, format, dimensions=query.dimensions)
+        resp = self.client.retrieve(src_query, format)
+        return SubImageSource(resp, size=query.size, offset=offset, image_opts=self.image_opts)""", """        sub_size, sub_offset, sub_bbox = bbox_position_in_image(query.bbox, query.size, self.extent.bbox_for(query.srs))
+        if sub_size[0] == 0 or sub_size[1] == 0:
+            raise BlankImage()
+        src_query = MapQuery(sub_bbox, sub_size, query.srs, format, dimensions=query.dimensions)
+        resp = self.client.retrieve(src_query, format)
+        return SubImageSource(resp, size=query.size, offset=sub_offset, image_opts=self.image_opts)""", 'renamed locals'),
+    M('M-C01c-fi-coord-untransformed', 'mapproxy/client/wms.py', "info_coord = req_srs.transform_to(info_srs, req_coord)", "info_coord = req_coord", 'C01.c'),
+    M('M-C01c-infoquery-coord-swapped', 'mapproxy/layer.py', "return make_lin_transf((0, 0, self.size[0], self.size[1]), self.bbox)(self.pos)",
+      "return make_lin_transf(self.bbox, (0, 0, self.size[0], self.size[1]))(self.pos)", 'C01.c'),
+    M('M-C01d-tileoffset-axis', 'mapproxy/image/tile.py', "                i//self.tile_grid[0]*self.tile_size[1])", "                i//self.tile_grid[0]*self.tile_size[0])", 'C01.d|C03.a|C03.f'),
 ]
